@@ -179,6 +179,8 @@ type X struct {
 	// pins
 	pinBoot, pinOnShutdown, pinClosePollers, pinT bool
 	pinL                                         map[int]bool
+	nBlocked                                     map[int]int // callbacks of loop i currently held by a pin
+	inCb                                         int         // connection callbacks entered and not yet finished
 	atBoot, atOnShutdown, atClosePollers         bool
 	relBoot, relOnShutdown, relClosePollers      chan struct{}
 
@@ -206,6 +208,7 @@ type X struct {
 	workerExpect map[int]bool
 	workerLate map[int]bool
 	pinnedAtEnd bool
+	carry      []event
 	endEvents  int
 	endWorkers map[int]bool
 	aux        net.Listener
@@ -218,7 +221,7 @@ type X struct {
 }
 
 func newX(cfg caseCfg) *X {
-	x := &X{cfg: cfg, gPoller: map[int64]int{}, loopHandle: map[int]gnet.EventLoop{}, pinL: map[int]bool{},
+	x := &X{cfg: cfg, gPoller: map[int64]int{}, loopHandle: map[int]gnet.EventLoop{}, pinL: map[int]bool{}, nBlocked: map[int]int{},
 		byConn: map[gnet.Conn]*connRec{}, byTag: map[int]*connRec{}, failWr: map[int]bool{},
 		users: map[int]chan userCmd{}, pendingStop: map[int]context.CancelFunc{}, busy: map[int]bool{},
 		workerDone: map[int]bool{}, workerExpect: map[int]bool{}, workerLate: map[int]bool{}, auxConns: map[string]net.Conn{},
@@ -227,6 +230,14 @@ func newX(cfg caseCfg) *X {
 	x.cond = sync.NewCond(&x.mu)
 	x.bump()
 	return x
+}
+
+// wake broadcasts under the lock: a waiter that armed the timer while holding the lock is
+// registered in cond.Wait by the time the lock can be taken here, so the wake-up is never lost
+func (x *X) wake() {
+	x.mu.Lock()
+	x.cond.Broadcast()
+	x.mu.Unlock()
 }
 
 func (x *X) bump() { x.lastAct.Store(time.Now().UnixNano()) }
@@ -368,9 +379,11 @@ func (x *X) OnShutdown(eng gnet.Engine) {
 
 // waitPinLocked blocks (lock held, released while waiting) while loop li is pinned.
 func (x *X) waitPinLocked(li int) {
+	x.nBlocked[li]++
 	for x.pinL[li] && !x.caseOver {
 		x.cond.Wait()
 	}
+	x.nBlocked[li]--
 	x.bump()
 }
 
@@ -436,6 +449,7 @@ func (x *X) OnOpen(c gnet.Conn) ([]byte, gnet.Action) {
 	x.byConn[c] = cr
 	x.loopHandle[li] = c.EventLoop()
 	cr.entered++
+	x.inCb++
 	x.cond.Broadcast()
 	x.waitPinLocked(li)
 	rk, th := thrL(li)
@@ -446,6 +460,8 @@ func (x *X) OnOpen(c gnet.Conn) ([]byte, gnet.Action) {
 	a := x.afterCb(cr, c, h, "onopen")
 	x.mu.Lock()
 	cr.done++
+	x.inCb--
+	x.bump()
 	x.cond.Broadcast()
 	x.mu.Unlock()
 	return nil, a
@@ -475,6 +491,7 @@ func (x *X) OnTraffic(c gnet.Conn) gnet.Action {
 		return a
 	}
 	cr.entered++
+	x.inCb++
 	x.cond.Broadcast()
 	x.waitPinLocked(li)
 	h := hres{}
@@ -488,6 +505,8 @@ func (x *X) OnTraffic(c gnet.Conn) gnet.Action {
 	a := x.afterCb(cr, c, h, "ontraffic")
 	x.mu.Lock()
 	cr.done++
+	x.inCb--
+	x.bump()
 	x.cond.Broadcast()
 	x.mu.Unlock()
 	return a
@@ -505,6 +524,7 @@ func (x *X) OnClose(c gnet.Conn, err error) gnet.Action {
 	nested := cr.entered > cr.done
 	if !nested {
 		cr.entered++
+		x.inCb++
 		x.cond.Broadcast()
 		x.waitPinLocked(li)
 	}
@@ -516,6 +536,7 @@ func (x *X) OnClose(c gnet.Conn, err error) gnet.Action {
 	wf := cr.inWfail
 	if !nested {
 		cr.done++
+		x.inCb--
 	}
 	x.cond.Broadcast()
 	x.mu.Unlock()
@@ -554,7 +575,7 @@ func (x *X) OnTick() (time.Duration, gnet.Action) {
 			}
 		}
 		// wake up regularly: cancellation is not signalled to the harness
-		t := time.AfterFunc(300*time.Microsecond, func() { x.cond.Broadcast() })
+		t := time.AfterFunc(300*time.Microsecond, x.wake)
 		x.cond.Wait()
 		t.Stop()
 	}
@@ -571,7 +592,7 @@ func (x *X) waitFor(max time.Duration, cond func() bool) bool {
 		if time.Now().After(deadline) {
 			return false
 		}
-		t := time.AfterFunc(500*time.Microsecond, func() { x.cond.Broadcast() })
+		t := time.AfterFunc(500*time.Microsecond, x.wake)
 		x.cond.Wait()
 		t.Stop()
 	}
@@ -617,13 +638,22 @@ func (x *X) cancelled() bool {
 	return c
 }
 
-var settleDur = 2500 * time.Microsecond
+var settleDur = 3 * time.Millisecond
 
 // settleAll is run after every op: wait for the consequences the harness can foresee, then for silence.
 func (x *X) settleAll() {
+	// callbacks that are running (not held by a pin) finish first
+	x.waitFor(time.Second, func() bool {
+		held := 0
+		for _, n := range x.nBlocked {
+			held += n
+		}
+		return x.inCb <= held
+	})
 	x.quiet(settleDur, 2*time.Second)
 	x.mu.Lock()
 	pins := x.anyPinLocked()
+	asked := len(x.requests) > 0
 	ret := x.returned
 	started := x.started
 	client := x.cfg.client
@@ -635,7 +665,18 @@ func (x *X) settleAll() {
 	}
 	tPin := x.pinT && x.cfg.ticker
 	x.mu.Unlock()
-	if started && !ret && !client && x.cancelled() {
+	x.mu.Lock()
+	clientStopping := client && x.rGoid == -1
+	x.mu.Unlock()
+	if clientStopping && !ret {
+		switch {
+		case !pins:
+			x.waitFor(3*time.Second, func() bool { return x.returned })
+		case atSD:
+			x.waitFor(3*time.Second, func() bool { return x.atOnShutdown })
+		}
+	}
+	if started && !ret && !client && (asked || x.cancelled()) {
 		switch {
 		case !pins:
 			x.waitFor(3*time.Second, func() bool { return x.returned })
@@ -664,10 +705,37 @@ func (x *X) settleAll() {
 
 // ---------------------------------------------------------------- window report
 
-func (x *X) window() []tr.Line {
+// pinsSetLocked: is any pin flag set (the rule of Model/Engine.v run_ops: rs_pins non-empty)?
+func (x *X) pinsSetLocked() bool {
+	if x.pinBoot || x.pinOnShutdown || x.pinClosePollers || x.pinT {
+		return true
+	}
+	for _, p := range x.pinL {
+		if p {
+			return true
+		}
+	}
+	return false
+}
+
+// window returns the events to report for the op that just settled.  Events of the engine's own
+// threads are held back while a pin is armed (unless force) and reported in the first window
+// without pins; results of user goroutines and workers are reported at once.
+func (x *X) window(force bool) []tr.Line {
 	x.mu.Lock()
-	evs := append([]event(nil), x.events[x.win:]...)
+	fresh := append([]event(nil), x.events[x.win:]...)
 	x.win = len(x.events)
+	held := x.pinsSetLocked() && !force
+	all := append(x.carry, fresh...)
+	x.carry = nil
+	var evs []event
+	for _, e := range all {
+		if held && e.rank < rankU {
+			x.carry = append(x.carry, e)
+		} else {
+			evs = append(evs, e)
+		}
+	}
 	x.mu.Unlock()
 	sort.SliceStable(evs, func(i, j int) bool { return evs[i].rank < evs[j].rank })
 	// canonical order of runs of close events within a thread
